@@ -35,6 +35,8 @@ pub fn gen_case(prop: &str, seed: u64) -> Case {
             p.w_drop = 5;
             p.pk_constraint_pct = 20;
             p.unicode_names_pct = 15;
+            p.invalid_pct = 6;
+            p.odd_ddl = true;
             p.w_view = if avoid.on { 0 } else { 3 };
             p.w_index = if avoid.on { 0 } else { 2 };
             p.w_function = 2;
